@@ -2,7 +2,10 @@
 """Generate MANIFEST.json from config/checks.json (single source of truth)."""
 import json, os
 root = os.path.dirname(os.path.dirname(os.path.abspath(__file__)))
-cfg = json.load(open(os.path.join(root, "config", "checks.json")))
+import sys
+sys.path.insert(0, os.path.join(root, "bin"))
+import verifcfg
+cfg = verifcfg.load()
 props = [json.loads(l) for l in open(os.path.join(root, "properties.jsonl"))]
 checks, na = [], []
 for p in props:
